@@ -343,6 +343,16 @@ class KaniCheck:
                     continue
                 seen[b["name"]] = b
                 keep.append(b)
+            # a failed harness WITHOUT symbolic input gets no playback test from Kani (there are no values to write down): its native replay is
+            # the harness itself, run under the playback runtime with an empty value list
+            for r in results:
+                if r.shape.name == n and not r.harness.should_panic and r.harness.symbolic.lower().startswith("none") \
+                        and not any(b["harness"].rsplit("::", 1)[-1] == r.harness.name for b in keep):
+                    tn = "kani_concrete_playback_%s_concrete" % r.harness.name
+                    keep.append(dict(harness="%s::proofs::%s" % (n, r.harness.name), category="assertion",
+                                     descr="harness without symbolic input: replayed as it is", name=tn,
+                                     text="    #[test]\n    fn %s() {\n        let concrete_vals: Vec<Vec<u8>> = vec![];\n"
+                                          "        kani::concrete_playback_run(concrete_vals, %s);\n    }\n" % (tn, r.harness.name)))
             blocks_of[n] = keep
             for b in keep:
                 hfn = b["harness"].rsplit("::", 1)[-1]
